@@ -385,6 +385,8 @@ class TermInterp:
                 self.err("chained comparison", e)
             l, r = self.expr(e.left), self.expr(e.comparators[0])
             op = e.ops[0]
+            if isinstance(op, (ast.Is, ast.IsNot)) and (l is None or r is None):
+                return (l is r) if isinstance(op, ast.Is) else (l is not r)
             if isinstance(l, (int, tuple)) and isinstance(r, (int, tuple)):
                 return {ast.Eq: l == r, ast.NotEq: l != r}.get(type(op)) if type(op) in (ast.Eq, ast.NotEq) else \
                     {ast.Lt: l < r, ast.LtE: l <= r, ast.Gt: l > r, ast.GtE: l >= r}[type(op)]
